@@ -110,6 +110,10 @@ func unhex(s string) int {
 }
 
 func main() {
+	if len(os.Args) > 1 && os.Args[1] == "multi-solo" {
+		multiSoloMain(os.Args[2:])
+		return
+	}
 	if len(os.Args) < 5 {
 		fmt.Fprintln(os.Stderr, "usage: harness <mode> <tier> <seed> <outdir> [replay-ops-file]")
 		os.Exit(2)
